@@ -271,9 +271,14 @@ REGRESS = [
 
 
 def run(ctx):
+    import os
+    part = os.environ.get('MCX_PART', 'AB')      # development aid only; registered commands run both parts
     for h in REGRESS:
         ctx.run_case('regress', replay_history, h)
-    run_part_a(ctx)
+    if 'A' in part:
+        run_part_a(ctx)
+    if 'B' not in part:
+        return
     try:
         from mcx.props import c14b
     except ImportError:
